@@ -8,6 +8,8 @@ entire-source / no position / no source); (C) every tree with <= N nodes plus sh
 positions, in-tree twins created in 'wrong' order, twin subtrees) x every antichain of still-alive positions x twin
 modes (no outside twin, outside twins alive, outside twins dropped between dump and load); all x 4 formats x {default,
 index-based sources}; (D) the same payloads read back in a FRESH process (nothing alive).  Oracle per position: the
+(E) the origin families again after every earlier call of a menu (each format x option set on a bystander tree, failing
+loads, a caller scribbling over structures handed out by or given to the library).  Oracle per position: the
 identical object if the original is alive and registered, else a new registered node with the recorded class, id,
 content_id, property values (type(v) is type(orig)) and an == origin of the same class; shared objects stay shared.
 """
@@ -56,7 +58,7 @@ PID = "C04"
 RULE = (
     "(A) one-field deviations from the default typed leaf over the value alphabets; (B) one leaf per origin kind; (C) all trees "
     "<= N nodes + shaped trees x all antichain alive-sets x 3 twin modes; each x {dict, json, msgpack, yaml} x {default, "
-    "index-based sources}; (D) every payload of (A)-(C) read back in a fresh process.  states = distinct (tree, alive-set, twin "
+    "index-based sources}; (D) every payload of (A)-(C) read back in a fresh process; (E) origin families after every earlier call of a 25-entry menu (thorough: every ordered pair).  states = distinct (tree, alive-set, twin "
     "mode) worlds; transitions = round trips executed and compared position by position; non-trivial = round trips in which at "
     "least one position is re-created (not alive) while another is re-used, or that run in a fresh process"
 )
@@ -93,11 +95,17 @@ class SV(ASTNode):
 class SL(ASTNode):  # a slotted subclass (the dataclass machinery creates such a class twice)
     v: int = 0
 
+    def __bool__(self) -> bool:  # falsy in a boolean context
+        return False
+
 
 @dataclass(frozen=True)
 class SP(ASTNode):
     one: ASTNode | None = None
     items: tuple[ASTNode, ...] = ()
+
+    def __len__(self) -> int:  # container-like: falsy in a boolean context while `items` is empty (may still hold other children)
+        return len(self.items)
 
 
 @dataclass(frozen=True)
@@ -268,10 +276,14 @@ def compare(rec, case, got_root, exp, alive_objs, fresh=False):
             bad("sharing-lost", "a node that occurred at two positions came back as two objects")
 
 
-def roundtrip(rec, case, build, hold, twin_mode, fmt, opt, fresh_batch=None):
+def roundtrip(rec, case, build, hold, twin_mode, fmt, opt, fresh_batch=None, pre=None):
     """build() -> root (fresh world); hold: position indices whose subtree is kept alive."""
     NODE_REGISTRY.clear()
     gc.collect()
+    if pre is not None:
+        pre()
+        NODE_REGISTRY.clear()
+        gc.collect()
     twin = build() if twin_mode != "none" else None
     root = build()
     exp = expectation(root)
@@ -378,6 +390,115 @@ def cases(cfg):
         yield {"family": "shaped", "shape": name}, b, holds, ["none", "twin-alive", "twin-dropped"]
 
 
+def _mutate_all(x):
+    """Scribble over every nested mapping / list of a structure the library handed out."""
+    if isinstance(x, dict):
+        for v in list(x.values()):
+            _mutate_all(v)
+        x["zz-scribble"] = {"__type": "Scribble", "source": {"x": 1}}
+        x.pop("__type", None)
+    elif isinstance(x, list):
+        for v in x:
+            _mutate_all(v)
+        x.append("scribble")
+
+
+def earlier_calls():
+    """Menu of calls that may precede a round trip in the same process: every format x every documented option set on a
+    bystander tree that has origin-less and code-origin nodes, failing loads, and a caller that scribbles over the
+    structures the library handed out or was given.  None of them may influence a later round trip."""
+    from pyoak.serialize import TYPE_KEY
+    from pyoak.node import AST_SERIALIZE_DIALECT_KEY, ASTSerializationDialects
+    from pyoak.serialize import SerializationOption
+
+    def bystander():
+        a = CodeOrigin(MS1, _R)
+        return SP(one=SL(7), items=(SL(8, origin=a), SP(one=SV(s="q", origin=merge_origins(a, CodeOrigin(MS2, _R2))))), origin=Origin(NO_SOURCE, NO_POSITION))
+
+    optsets = {
+        "skip": {SerializationOption.SKIP_CLASS: True}, "sort": {SerializationOption.SORT_KEYS: True},
+        "explorer": {AST_SERIALIZE_DIALECT_KEY: ASTSerializationDialects.AST_EXPLORER},
+        "test": {AST_SERIALIZE_DIALECT_KEY: ASTSerializationDialects.AST_TEST},
+        "srcidx": {SOURCE_OPTIMIZED_SERIALIZATION_KEY: True},
+    }
+    menu = {}
+    for fmt, meth in (("dict", "as_dict"), ("json", "to_json"), ("msgpck", "to_msgpck"), ("yaml", "to_yaml")):
+        for on, so in optsets.items():
+            menu[f"{meth}[{on}]"] = (lambda m=meth, o=so: getattr(bystander(), m)(serialization_options=dict(o)))
+
+    def scribble_output():
+        t = bystander()
+        _mutate_all(t.as_dict())
+        _mutate_all(NO_ORIGIN.as_dict()) if hasattr(NO_ORIGIN, "as_dict") else None
+        _mutate_all(MS1.as_dict())
+
+    def scribble_input():
+        t = bystander()
+        d = t.as_dict()
+        t.detach()
+        back = SP.as_obj(d)
+        _mutate_all(d)
+        del back
+
+    def failing_load(kind):
+        def run():
+            t = bystander()
+            d = t.as_dict()
+            t.detach()
+            if kind == "missing":
+                d["items"][0].pop("v")
+                d["items"][0]["v"] = "not an int"
+            elif kind == "unknown-type":
+                d["one"][TYPE_KEY] = "NoSuchClass"
+            else:
+                d["origin"] = 17
+            try:
+                SP.as_obj(d)
+            except Exception:  # noqa: BLE001
+                pass
+        return run
+
+    menu["scribble-over-output"] = scribble_output
+    menu["scribble-over-input"] = scribble_input
+    for kind in ("missing", "unknown-type", "bad-origin"):
+        menu[f"failing-load[{kind}]"] = failing_load(kind)
+    return menu
+
+
+def check_after_earlier_calls(rec, cfg):
+    """(E) every origin kind (flat and nested) x 4 formats x {nothing alive, root alive}, each after every earlier call of the
+    menu (thorough: after every ordered pair)."""
+    menu = earlier_calls()
+    names = list(menu)
+    seqs = [(n,) for n in names]
+    if cfg["tier"] == "thorough":
+        seqs += list(itertools.product(names, repeat=2))
+    idx = 0
+    for seq in seqs:
+        for kind in origin_kinds():
+            idx += 1
+            if idx % cfg["of"] != cfg["k"]:
+                continue
+            rec.rank = 10**7 + idx
+
+            def pre(seq=seq):
+                for n in seq:
+                    try:
+                        menu[n]()
+                    except Exception:  # noqa: BLE001
+                        pass   # what the earlier call did or returned is not judged here, only its aftermath
+
+            builds = [("origin", lambda k=kind: SV(s="o", origin=origin_kinds()[k])),
+                      ("origin-nested", lambda k=kind: SP(one=SL(1, origin=origin_kinds()[k]), items=(SL(2, origin=origin_kinds()[k]),), origin=origin_kinds()[k]))]
+            for fam, b in builds:
+                for hold in ([], [0]):
+                    rec.count("states")
+                    for fmt in FORMATS:
+                        c = {"family": fam, "origin_kind": kind, "earlier_calls": list(seq), "alive": hold, "twins": "none", "format": fmt, "options": "default"}
+                        roundtrip(rec, c, b, hold, "none", fmt, "default", None, pre=pre)
+    rec.extra["earlier_call_menu"] = names
+
+
 def run_shard(cfg):
     rec = Rec(cfg)
     idx = 0
@@ -397,6 +518,7 @@ def run_shard(cfg):
                             continue
                         c = dict(case, alive=hold, twins=twin_mode, format=fmt, options=opt)
                         roundtrip(rec, c, build, hold, twin_mode, fmt, opt, fresh_batch if (not hold and twin_mode == "none") else None)
+    check_after_earlier_calls(rec, cfg)
     # (D) the same payloads in a fresh process
     if fresh_batch:
         run_fresh(rec, cfg, fresh_batch)
@@ -461,6 +583,22 @@ def replay(case, cfg):
     cfg = dict(cfg)
     cfg.setdefault("n", 4)
     cfg.setdefault("scratch", os.path.join(ROOT, ".scratch", f"c04-replay-{os.getpid()}"))
+    if case.get("earlier_calls") is not None:
+        menu = earlier_calls()
+
+        def pre():
+            for n in case["earlier_calls"]:
+                try:
+                    menu[n]()
+                except Exception:  # noqa: BLE001
+                    pass
+
+        k = case["origin_kind"]
+        b = ((lambda: SV(s="o", origin=origin_kinds()[k])) if case["family"] == "origin" else
+             (lambda: SP(one=SL(1, origin=origin_kinds()[k]), items=(SL(2, origin=origin_kinds()[k]),), origin=origin_kinds()[k])))
+        hold = [int(x) for x in case.get("alive") or []]
+        roundtrip(rec, case, b, hold, "none", case["format"], "default", None, pre=pre)
+        return rec.result()["violations"]
     want = {k: case.get(k) for k in ("family", "field", "value", "origin_kind", "tree", "shape")}
     for c, build, holds, twins in cases(cfg):
         if {k: c.get(k) for k in want} != want:
